@@ -136,6 +136,7 @@ class FatAreaAdapter(Adapter):
 
         sector_links = [SectorLink()] * FAT_NUM_ENTRIES
         dirty_flags = [False] * FAT_NUM_ENTRIES
+        resolved_flags = [False] * FAT_NUM_ENTRIES
         dirty_flags[0:2] = [True, True]
         for i in range(2, FAT_NUM_ENTRIES - 9):
 
@@ -164,12 +165,29 @@ class FatAreaAdapter(Adapter):
                     else:
                         break
 
+                if resolved_flags[subpath_index] and len(subpath_links) > 0:
+                    # The chain runs into one that an earlier walk has 
+                    # resolved (its head is not its lowest cluster): join 
+                    # it. Walking the remainder again for every cluster 
+                    # takes quadratic time on a long descending chain.
+                    joined_link = sector_links[subpath_index]
+                    add_to_sector_links(
+                        subpath_links + [subpath_index], 
+                        sector_links
+                    )
+                    sector_links[subpath_index] = joined_link
+                    for link in subpath_links:
+                        resolved_flags[link] = True
+                    break
+
                 subpath_links.append(subpath_index)
                 if len(subpath_links) > FAT_NUM_ENTRIES:
                     raise ConstructError("Loop in FAT.")
 
                 if FAT_IS_END_F(value):
                     add_to_sector_links(subpath_links, sector_links)
+                    for link in subpath_links:
+                        resolved_flags[link] = True
                     break
 
                 subpath_index = value
